@@ -146,6 +146,7 @@ class FxBuilder(Builder):
         self._value_eq = None
         self.discr_domain = {}
         self.etypes = {}
+        self.spliced = set()      # closures whose body was spliced into a modelled combinator (decided in that context)
         self._serial = 0
         self._tbl_cache = {}
         self._model_nodes = []
@@ -908,6 +909,7 @@ class FxBuilder(Builder):
                 if cret is None:
                     return None
                 nodes.append(("inlined", callee.id, mk(el), sub, site, cret))
+                self.spliced.add(callee.id)
                 outs.append(cret)
             return ("agg", "array", "", tuple(outs))
         if last == "iter" and base.startswith("core::slice::<impl [T]>") and len(args) == 1:
@@ -944,6 +946,7 @@ class FxBuilder(Builder):
                 sub, cret = self._subtree(callee, mk(arg), fr.depth + 1)
                 if cret is None:
                     raise ValueError
+                self.spliced.add(callee.id)
                 sw = (fr.fn.id, site.bi, fr.id, first_nw, "search", i)
                 rest_nodes, rest_val = build(i + 1)
                 hit_val = {"find": ("agg", OPT, "Some", (el,)), "position": ("agg", OPT, "Some", (("const", i, "usize"),)),
@@ -971,7 +974,7 @@ class FxBuilder(Builder):
         last = base.split("::")[-1]
         is_opt = base.startswith("core::option::Option::<")
         is_res = base.startswith("core::result::Result::<")
-        if last not in ("map", "map_err", "and_then", "filter") or not (is_opt or is_res) or fr.depth >= self.max_depth:
+        if last not in ("map", "map_err", "and_then", "filter", "unwrap_or_else") or not (is_opt or is_res) or fr.depth >= self.max_depth:
             return None
         if last == "filter" and not is_opt or last == "map_err" and not is_res:
             return None
@@ -979,6 +982,29 @@ class FxBuilder(Builder):
         if x[0] == "agg":
             return None
         clos = [h for h in (hidden or []) if h in self.facts.fns]
+        ctor = None
+        if fnv[0] == "fn" and fnv[1] not in self.facts.fns and "::" in fnv[1]:
+            # a tuple-variant constructor used as a function (`.map(Outcome::Draw)`)
+            epath, vname = fnv[1].rsplit("::", 1)
+            info = self.enum_info(epath)
+            if info and any(v["name"] == vname and len(v.get("fields") or []) == 1 for v in info["variants"]):
+                ctor = (epath, vname)
+        if ctor is not None:
+            if last != "map":
+                return None
+            d = self.simp(("discr", x))
+            sw_id = (fr.fn.id, site.bi, fr.id, len(self.writes), "comb")
+            OPT, RES = "core::option::Option", "core::result::Result"
+            if is_opt:
+                act_lab, pas_lab = (1,), (0,)
+                act_val = ("agg", OPT, "Some", (("agg", ctor[0], ctor[1], (N(("downcast", x, "Some")),)),))
+                pas_val = ("agg", OPT, "None", ())
+            else:
+                act_lab, pas_lab = (0,), (1,)
+                act_val = ("agg", RES, "Ok", (("agg", ctor[0], ctor[1], (N(("downcast", x, "Ok")),)),))
+                pas_val = ("agg", RES, "Err", (N(("downcast", x, "Err")),))
+            nodes.append(("switch", d, {act_lab: [], pas_lab: []}, site, (0, 1), sw_id))
+            return ("phi", sw_id, "_map", ((act_lab, act_val), (pas_lab, pas_val)))
         if fnv[0] == "fn" and fnv[1] in self.facts.fns:
             callee = self.facts.fns[fnv[1]]
             mk = lambda p: (p,)
@@ -989,6 +1015,35 @@ class FxBuilder(Builder):
         else:
             return None
         OPT, RES = "core::option::Option", "core::result::Result"
+        if last == "unwrap_or_else":
+            # the closure runs on the empty / error variant; the other variant yields its payload
+            if is_opt:
+                act_lab, pas_lab = (0,), (1,)
+                pas_val = N(("downcast", x, "Some"))
+                carg = None
+            else:
+                act_lab, pas_lab = (1,), (0,)
+                pas_val = N(("downcast", x, "Ok"))
+                carg = N(("downcast", x, "Err"))
+            d = self.simp(("discr", x))
+            sw_id = (fr.fn.id, site.bi, fr.id, len(self.writes), "comb")
+            base_state = dict(fr.state)
+            saved_branch = self.branch
+            fr.state = dict(base_state)
+            self.branch = saved_branch + ((sw_id, act_lab),)
+            cargs = mk(carg) if carg is not None else mk(None)[:-1]        # `|| ..` takes no argument besides the closure itself
+            sub, cret = self._subtree(callee, cargs, fr.depth + 1)
+            state_act = fr.state
+            self.branch = saved_branch
+            for wi in range(sw_id[3], len(self.writes)):
+                self.writes[wi] = (self.writes[wi][0], saved_branch)
+            if cret is None:
+                fr.state = base_state
+                return None
+            self.spliced.add(callee.id)
+            fr.state = self._merge_states(fr, base_state, [state_act, dict(base_state)], [act_lab, pas_lab], sw_id)
+            nodes.append(("switch", d, {act_lab: [("inlined", callee.id, cargs, sub, site, cret)], pas_lab: []}, site, (0, 1), sw_id))
+            return ("phi", sw_id, "_unwrap_or_else", ((act_lab, cret), (pas_lab, pas_val)))
         if is_opt:
             act_lab, pas_lab, act_v = (1,), (0,), "Some"
             pas_val = ("agg", OPT, "None", ())
@@ -1014,6 +1069,7 @@ class FxBuilder(Builder):
         if cret is None:
             fr.state = base_state
             return None
+        self.spliced.add(callee.id)
         act_nodes = [("inlined", callee.id, mk(arg), sub, site, cret)]
         if last == "map":
             act_val = ("agg", OPT if is_opt else RES, act_v, (cret,))
@@ -1214,6 +1270,7 @@ class FxBuilder(Builder):
                 if ret is not None and not any(n[0] in ("store",) for n, _c, _i in walk_tree(sub)):
                     # keep the closure's subtree in the event list: its switches decide the phi values of `ret`
                     self._model_nodes.append(("inlined", clos[0], (args[1],), sub, None, ret))
+                    self.spliced.add(clos[0])
                     return ret
         if last == "branch" and "Try" in base:
             if v in ("Some", "Ok"):
